@@ -107,6 +107,8 @@ pub struct Inner {
     /// execution number: a thread that is still waking up from the previous execution must not be
     /// caught by the next one
     pub epoch: u64,
+    /// OS thread -> kernel actor currently at work on it (between its first point and co.subscribed)
+    pub kthread: HashMap<usize, (usize, usize)>, // OS thread -> (kernel slot actor, nesting depth)
 }
 
 pub struct Ctrl {
@@ -115,7 +117,18 @@ pub struct Ctrl {
     pub gate: AtomicBool,
 }
 
+static NEXT_TID: std::sync::atomic::AtomicUsize = std::sync::atomic::AtomicUsize::new(1);
+fn my_tid() -> usize {
+    TID.with(|c| {
+        if c.get() == 0 {
+            c.set(NEXT_TID.fetch_add(1, Ordering::Relaxed));
+        }
+        c.get()
+    })
+}
+
 thread_local! {
+    static TID: Cell<usize> = const { Cell::new(0) };
     static ACTOR: Cell<usize> = const { Cell::new(usize::MAX) };
     static IS_TIMER: Cell<bool> = const { Cell::new(false) };
 }
@@ -168,6 +181,7 @@ impl Ctrl {
                 owner: HashMap::new(),
                 abort: false,
                 epoch: 0,
+                kthread: HashMap::new(),
             }),
             cv: Condvar::new(),
             gate: AtomicBool::new(false),
@@ -214,6 +228,7 @@ impl Ctrl {
         g.owner.clear();
         g.abort = false;
         g.epoch += 1;
+        g.kthread.clear();
         g.timers.clear();
         g.trace.clear();
         g.notes.clear();
@@ -274,9 +289,14 @@ impl Ctrl {
         let cat = cat_of(site);
         if g.kernel_cats.iter().any(|c| *c == cat) {
             let co_actor = g.by_vid.get(&a).copied()?;
-            // a dedicated kernel actor, if the scenario declared one
-            if let Some(k) = g.actors.iter().position(|x| x.kernel_of == Some(co_actor)) {
+            // a dedicated kernel actor, if the scenario declared one: the slot at work on this thread
+            // kernel code is attributed to the kernel slot at work on this OS thread (nested activations
+            // on one thread are sequential, hence the same actor)
+            if let Some((k, _)) = g.kthread.get(&my_tid()).copied() {
                 return Some(k);
+            }
+            if g.actors.iter().any(|x| x.kernel_of == Some(co_actor)) {
+                return None; // a slot exists but none is mapped to this thread: not under the baton
             }
             return Some(co_actor);
         }
@@ -302,6 +322,8 @@ impl Ctrl {
             return true;
         }
         if a.kernel_of.is_some() {
+            // buried under a nested activation on its own thread (fast_wake_up resumed the coroutine,
+            // which yielded again): it goes on only when that one is done
             return a.st == ASt::AtPoint || a.kactive == 0;
         }
         match a.st {
@@ -354,7 +376,7 @@ impl Ctrl {
                     .iter()
                     .map(|a| format!("{}:{:?}:{:?}:k{}:h{:?}", a.name, a.st, g.co.get(&a.vid), a.kactive, a.hosting))
                     .collect();
-                return Err(ToolError(format!("watchdog: actors never settled: {desc:?}")));
+                return Err(ToolError(format!("watchdog: actors never settled: {desc:?} kthread={:?}", g.kthread)));
             }
             let (g2, _) = self
                 .cv
@@ -385,6 +407,14 @@ impl Ctrl {
     /// declare actor `k` to be the kernel side of coroutine actor `of`
     pub fn set_kernel_of(&self, k: usize, of: usize) {
         self.lock().actors[k].kernel_of = Some(of);
+    }
+
+    /// is the kernel side of an earlier yield of coroutine actor `i` still at work?
+    pub fn kernel_busy_of(&self, i: usize) -> bool {
+        let g = self.lock();
+        let vid = g.actors[i].vid;
+        // (a kernel slot that has resumed the coroutine on its own stack waits for it, not the other way round)
+        g.actors.iter().enumerate().any(|(j, x)| j != i && x.kernel_of == Some(i) && (x.kactive > 0 || x.st == ASt::AtPoint) && !(vid != 0 && x.hosting == Some(vid)))
     }
 
     pub fn kernel_idle(&self, k: usize) -> bool {
@@ -462,7 +492,9 @@ impl Ctrl {
             .wait_timeout_while(g, Duration::from_millis(max_ms), |x| {
                 let parked_quiet = x.timer_parked && x.park_add_gen == x.add_gen;
                 let polled_quiet = x.timer_done_gen >= x.tick_gen && x.done_add_gen >= x.add_gen;
-                !parked_quiet && !polled_quiet && x.fired == fired_before
+                // the timer thread may also be stopped at one of its own points (it is an actor then)
+                let at_point = x.actors.iter().any(|a| a.st == ASt::AtPoint && a.at.as_ref().map_or(false, |p| p.site.starts_with("timer.")));
+                !parked_quiet && !polled_quiet && !at_point && x.fired == fired_before
             })
             .unwrap_or_else(|p| p.into_inner());
         drop(g);
@@ -520,6 +552,7 @@ impl may::verif::Controller for Ctrl {
         if matches!(g.actors[me].st, ASt::Finished(_)) {
             return;
         }
+
         g.actors[me].st = ASt::AtPoint;
         g.actors[me].at = Some(PointInfo { site, obj, a, b });
         g.actors[me].worker = may::verif::worker_id();
@@ -551,7 +584,11 @@ impl may::verif::Controller for Ctrl {
                 g.by_vid.get(&vid).copied()
             } else {
                 let t = ACTOR.with(|c| c.get());
-                if t != usize::MAX && t < g.actors.len() && !g.actors[t].is_co && g.actors[t].kernel_of.is_none() { Some(t) } else { None }
+                if t != usize::MAX && t < g.actors.len() && !g.actors[t].is_co && g.actors[t].kernel_of.is_none() {
+                    Some(t)
+                } else {
+                    g.kthread.get(&my_tid()).map(|x| x.0)
+                }
             }
         };
         match kind {
@@ -561,16 +598,7 @@ impl may::verif::Controller for Ctrl {
             "co.resume" => {
                 g.co.insert(a, CoSt::Running);
                 // resumed from inside an actor (nested on its stack)?
-                let host = {
-                    let vid = may::verif::cur_vid();
-                    if vid != 0 {
-                        g.by_vid.get(&vid).copied()
-                    } else {
-                        let t = ACTOR.with(|c| c.get());
-                        if t != usize::MAX && t < g.actors.len() && !g.actors[t].is_co { Some(t) } else { None }
-                    }
-                };
-                if let Some(h) = host {
+                if let Some(h) = ctx {
                     if g.gating {
                         g.actors[h].hosting = Some(a);
                     }
@@ -580,22 +608,39 @@ impl may::verif::Controller for Ctrl {
                 g.gen += 1;
                 ret = g.gen;
                 g.co.insert(a, CoSt::Switching(ret));
+                let t = my_tid();
                 if let Some(ca) = g.by_vid.get(&a).copied() {
-                    if let Some(k) = g.actors.iter().position(|x| x.kernel_of == Some(ca)) {
-                        g.actors[k].kactive += 1;
-                        if g.actors[k].st != ASt::AtPoint {
-                            g.actors[k].st = ASt::Running;
-                        }
+                    if let Some(e) = g.kthread.get_mut(&t) {
+                        e.1 += 1; // nested activation on a thread that already runs kernel code
+                    } else if let Some(k) = g.actors.iter().position(|x| x.kernel_of == Some(ca) && x.kactive == 0 && x.st != ASt::AtPoint) {
+                        g.actors[k].kactive = 1;
+                        g.actors[k].st = ASt::Running;
+                        g.kthread.insert(t, (k, 1));
+                    }
+                }
+                // a kernel slot that had resumed this coroutine on its own stack goes on now
+                if let Some(h) = ctx {
+                    if g.actors[h].kernel_of.is_some() && g.actors[h].hosting == Some(a) {
+                        g.actors[h].hosting = None;
                     }
                 }
             }
             "co.subscribed" => {
+                if std::env::var("MV_DEBUG2").is_ok() {
+                    eprintln!("    subscribed vid={a:x} gen={b} tid={} stack={:?}", my_tid(), g.kthread.get(&my_tid()));
+                }
                 if g.co.get(&a) == Some(&CoSt::Switching(b)) {
                     g.co.insert(a, CoSt::Suspended);
                 }
-                if let Some(ca) = g.by_vid.get(&a).copied() {
-                    if let Some(k) = g.actors.iter().position(|x| x.kernel_of == Some(ca)) {
-                        g.actors[k].kactive = g.actors[k].kactive.saturating_sub(1);
+                {
+                    let t = my_tid();
+                    if let Some((k, d)) = g.kthread.get(&t).copied() {
+                        if d <= 1 {
+                            g.actors[k].kactive = 0;
+                            g.kthread.remove(&t);
+                        } else {
+                            g.kthread.insert(t, (k, d - 1));
+                        }
                     }
                 }
                 // the kernel side of the nested coroutine's yield ran on the host's stack: now the host goes on
